@@ -129,7 +129,8 @@ RestoreExprs ==
   LET Pre  == { Bin("seq", Un("push", S(a)), Un("push", S(b))), Un("push", Id("ANY")) }
       F    == { Id("POP_ALL"), Id("POP"), Bin("seq", Id("DROP"), S(qq)), Bin("seq", Un("push", S(a)), S(qq)),
                 Bin("seq", Id("POP"), S(qq)), Bin("seq", Id("POP_ALL"), S(qq)), Id("r1"),
-                Bin("seq", Id("PEEK"), Bin("seq", Id("DROP"), S(qq))) }
+                Bin("seq", Id("PEEK"), Bin("seq", Id("DROP"), S(qq))),
+                Id("PEEK_ALL"), [t |-> "peek", lo |-> 0, hi |-> 2, open |-> FALSE] }
       W(f) == { Un("opt", f), Bin("alt", f, S(b)), Un("rep", f), Bin("alt", f, Id("POP")),
                 Un("opt", Bin("alt", S(qq), f)) }
       Post == { Id("PEEK_ALL"), Bin("seq", Id("POP"), Id("POP")), [t |-> "peek", lo |-> 0, hi |-> 1, open |-> FALSE],
